@@ -12,7 +12,7 @@ BUDGET = {"quick": {"runs": 10000, "wall": 45}, "thorough": {"runs": 500000, "wa
 RULE = (
     "one evaluation = one seeded backtest with 1-3 markets (WIN/PLACE/OTHER_PLACE/EACH_WAY, sequential or event-grouped) containing runner "
     "removals with factors None/0/1/2.49/2.5/2.51/10/33.3/60, the same (selection, factor) removed in several markets, orders in every state "
-    "at the removal instant (pending, resting, partly filled, partly cancelled, in-flight cancel/replace, complete, SP orders); non-trivial = a "
+    "at the removal instant (pending, resting, partly filled, partly cancelled, in-flight cancel/replace, complete, SP orders), markets that close and receive data again; non-trivial = a "
     "removal hit a market holding an order on the removed runner and a matched order elsewhere; distinct = distinct scenario digests"
 )
 ASSUMPTIONS = [
@@ -38,6 +38,10 @@ def generate(rng, i, tier):
         "bsp": True if rng.random() < 0.7 else None,
         "n_updates": (6, rng.choice([14, 25, 40])),
         "p_trade": 0.6,
+        # closure, repeated closure and data after closure: a removal must not be applied again when the market re-opens
+        "p_close": rng.choice([0.5, 1.0]),
+        "p_repeat_close": rng.choice([0.0, 0.3]),
+        "p_reopen_after_close": rng.choice([0.0, 0.5]),
     }
     mix = {"p_act": rng.choice([0.4, 0.7]), "p_fok": 0.05, "p_sp": rng.choice([0.1, 0.35]), "where": ("through", "at", "behind", "behind"), "max_size": 8.0, "p_partial_cancel": 0.7, "w_cancel": 2}
     sc = common.base_scenario(
